@@ -31,11 +31,13 @@ def _universe():
     from ropt.plugins.base import Plugin  # noqa: PLC0415
 
     class P(Plugin):
-        def __init__(self, tag, methods, discover):
-            self.tag, self.methods, self._discover = tag, {m.lower() for m in methods}, discover
+        def __init__(self, tag, methods, discover, case_sensitive=False):
+            self.tag, self._discover, self._cs = tag, discover, case_sensitive
+            self.methods = set(methods) if case_sensitive else {m.lower() for m in methods}
 
         def is_supported(self, method):
-            return method.lower() in self.methods
+            # how a plug-in matches method names is its own business: p4 tells spellings apart by case
+            return (method if self._cs else method.lower()) in self.methods
 
         @property
         def allows_discovery(self):
@@ -45,7 +47,7 @@ def _universe():
             return f"<P {self.tag}>"
 
     return {"p1": P("p1", {"a", "b", "grp/a"}, True), "p2": P("p2", {"b", "c", "slsqp", "norm", "mean", "tracker", "optimizer", "sort-objective"}, True),
-            "p3": P("p3", {"a", "c", "grp/a"}, False)}
+            "p3": P("p3", {"a", "c", "grp/a"}, False), "p4": P("p4", {"Fast", "b"}, True, case_sensitive=True)}
 
 
 def _collisions(ptype):
@@ -56,7 +58,7 @@ def _collisions(ptype):
 
 def _alphabet(ptype):
     adds = [("add", "p1", "p1", False), ("add", "P1", "p1", True), ("add", "p2", "p2", False), ("add", "P2", "p2", True),
-            ("add", "p3", "p3", False), ("add", "P3", "p3", True), ("add", "p1", "p2", False)]
+            ("add", "p3", "p3", False), ("add", "P3", "p3", True), ("add", "p1", "p2", False), ("add", "P4", "p4", False)]
     builtin = {"optimizer": ["slsqp", "external/slsqp", "SciPy/SLSQP", "external/a"], "sampler": ["norm", "SCIPY/norm"],
                "realization_filter": ["sort-objective", "Default/sort-objective"], "function_estimator": ["mean", "DEFAULT/mean"],
                "plan_handler": ["tracker", "default/Tracker"], "plan_step": ["optimizer", "Default/optimizer"]}[ptype]
@@ -194,7 +196,7 @@ def run_case(case, obs):
         seqs = ([*pre, *rest] for rest in itertools.product(range(len(ops)), repeat=L - 2))
     # method names may themselves contain a slash (the documented external/<plugin>/<method> form): the plug-in name ends at
     # the first one
-    probes = sorted({o[1] for o in ops if o[0] in ("get", "sup")} | {"p1/grp/a", "P1/GRP/A", "p2/grp/a", "p3/grp/a", "grp/a"}
+    probes = sorted({o[1] for o in ops if o[0] in ("get", "sup")} | {"p1/grp/a", "P1/GRP/A", "p2/grp/a", "p3/grp/a", "grp/a", "Fast", "fast", "FAST", "p4/Fast", "P4/fast", "p4/B", "p4/b"}
                     | ({"external/scipy/slsqp", "external/SciPy/SLSQP", "external/scipy/no-such-method"} if ptype == "optimizer" else set()))
     other = PluginManager()
     baseline = {g: _apply_real(other, ptype, ("get", g), None) for g in probes}
